@@ -69,7 +69,7 @@ let () =
         let (po, pp) = predict r x g d in
         let k = st.s_core in
         Printf.printf "RES=%s PRINTED=%d PRED=%s PREDPRINTED=%d F=%s M=%s COMPLETED=%d MU0=%d\n"
-          (show_outcome k.k_res) (int_of_n k.k_printed) (show_outcome (Some po)) (int_of_n pp)
+          (show_outcome k.k_res) (int_of_n k.k_printed) (show_outcome po) (int_of_n pp)
           (show_f k.k_f) (show_m k.k_m) (if k.k_completed then 1 else 0)
           (int_of_nat (gen_mu_bound r x g d sp))
       | _ -> print_endline "BADLINE"
